@@ -395,7 +395,10 @@ func (s *Store) instantiate(
 	for _, exp := range m.Exports {
 		if exp.Type == ExternTypeTable {
 			t := m.Tables[exp.Index]
+			// The table may be a re-exported import already shared with other instances.
+			t.involvingModuleInstancesMutex.Lock()
 			t.involvingModuleInstances = append(t.involvingModuleInstances, m)
+			t.involvingModuleInstancesMutex.Unlock()
 		}
 	}
 
